@@ -20,6 +20,10 @@ RULES = {
     "C09.1d": "persisted position = cursor position (reaching stores): at every point of read_next where the (index, offset) pair later handed to WalIndex::set is packaged, every store "
               "to the cursor's offset field (cur_block_offset resp. tail_offset, directly or through a callee) that reaches that point without being overwritten stores the very value that "
               "is packaged; a path on which the cursor was moved to another position than the one persisted makes a restart resume from a position the consumer never was at",
+    "C09.1e": "a tail position is never persisted behind the reader's own progress: wherever read_next hands `(active block id | TAIL_FLAG, offset)` to the index outside the commit "
+              "itself (the provisional persists made while (re)initialising the tail position), the offset is the reader's in-memory tail offset for that block - a load of "
+              "ColReaderInfo.tail_offset - and may be the constant 0 only on the edge on which `tail_block_id != active block id` was established. Persisting 0 unconditionally "
+              "rewinds the durable position of a StrictlyAtOnce consumer: a poll that finds nothing, or a crash before the read that follows, re-delivers the whole tail block",
     "C09.1c": "persist-before-return in batch_read_for_topic: in the commit closure the `persist to disk` flag is cleared only under ReadConsistency::AtLeastOnce; a persist target is "
               "recorded on both the tail and the sealed arm whenever the flag is set; in the caller both non-empty targets reach WalIndex::set with the only bypass being the poisoned lock",
     "C09.2": "index replacement order (ORD in WalIndex::persist): write tmp -> fsync tmp -> rename over the index (directory fsync is C10.4's obligation), and WalIndex::set calls persist on every path",
@@ -370,6 +374,70 @@ def check_persisted_equals_cursor(ctx, facts):
     ctx.floor("C09.1d", "packaged persisted positions in read_next", n, 2)
 
 
+def check_no_tail_regress(ctx, facts):
+    b = facts.body("read_next")
+    F = common.short_fn(b.name)
+    TAIL = 1 << 63
+    n = 0
+
+    def is_tail_offset_load(e):
+        return show(e, 8).endswith(".tail_offset")
+
+    def neq_edges(block_id_show):
+        out = []
+        for T in all_tests(b):
+            if T.kind == "cmp" and T.op in ("Eq", "Ne"):
+                ea, eb = show(strip_refs(expr(b, T.a)), 8), show(strip_refs(expr(b, T.b)), 8)
+                pair = {ea.rsplit(".", 1)[-1] if ea.endswith(".tail_block_id") else ea, eb.rsplit(".", 1)[-1] if eb.endswith(".tail_block_id") else eb}
+                if "tail_block_id" in pair and block_id_show in pair:
+                    out.append(T.false_edge if T.op == "Eq" else T.true_edge)
+        return out
+
+    def judge(op, at_bb, blk_show, depth=0, seen=None):
+        """list of (site, why) for definitions of the offset that are neither the in-memory tail offset nor a guarded 0"""
+        seen = seen if seen is not None else set()
+        bad = []
+        if op.get("k") == "const":
+            if op.get("val") == 0 and any(b.edge_guards(e, at_bb) for e in neq_edges(blk_show)):
+                return []
+            return [(at_bb, "constant %s" % op.get("val"))]
+        e = strip_refs(expr(b, op))
+        if is_tail_offset_load(e):
+            return []
+        l = op_local(b.resolve_copy(op))
+        if l is None or l in seen or depth > 6:
+            return [(at_bb, show(e, 6)[:50])]
+        seen.add(l)
+        defs = [(site, node) for site, kind, node in b.defs.get(l, []) if kind == "assign"]
+        if not defs:
+            return [(at_bb, show(e, 6)[:50])]
+        for site, node in defs:
+            rv = node["rv"]
+            if rv["k"] in ("use", "cast"):
+                bad += judge(rv["op"], site.bb, blk_show, depth + 1, seen)
+            else:
+                bad.append((site.bb, rv["k"]))
+        return bad
+    for c in b.calls(index_setters(ctx, facts)[0]):
+        idx_e = strip_refs(expr(b, c.node["args"][2]))
+        if idx_e[0] != "BitOr":
+            continue
+        sides = [strip_refs(idx_e[1]), strip_refs(idx_e[2])]
+        flag = [x for x in sides if x[0] == "c" and x[1] == TAIL]
+        blk = [x for x in sides if not (x[0] == "c" and x[1] == TAIL)]
+        if not flag or len(blk) != 1 or not show(blk[0], 8).endswith(".id"):
+            continue   # packaged commits (C09.1d) and other shapes
+        n += 1
+        bad = judge(c.node["args"][3], c.bb, show(blk[0], 8))
+        if bad:
+            ctx.violate("C09.1e", F, "tail-position-persisted-behind-progress", b.relfile, c.line,
+                        "read_next persists (active block | TAIL_FLAG, %s) without regard to the tail offset this reader has already reached in that block: an empty poll, or a crash "
+                        "before the read that follows, leaves the durable position at the start of the block and a StrictlyAtOnce consumer gets the whole tail block again" % bad[0][1])
+        else:
+            ctx.ok("C09.1e", F, "provisional tail persist carries the in-memory tail offset (0 only when the reader was not in this block)", b.relfile, c.line)
+    ctx.floor("C09.1e", "provisional tail persists in read_next", n, 2)
+
+
 def check_batch_persist(ctx, facts):
     b = facts.body("batch_read_for_topic")
     ctx.saw_body(b)
@@ -503,6 +571,7 @@ def run(ctx):
     check_should_persist(ctx, facts)
     check_read_next_persist(ctx, facts)
     check_persisted_equals_cursor(ctx, facts)
+    check_no_tail_regress(ctx, facts)
     check_batch_persist(ctx, facts)
     check_index(ctx, facts)
     ctx.assume("NOT decided: the provisional `TAIL_FLAG|id, 0` persist before the tail read, tail block ids versus recovery's synthetic ids (value-level), the AtLeastOnce redelivery bound")
